@@ -129,21 +129,42 @@ class Obj:
 
 
 class Heap:
+    """Copy-on-write: copy() shares the Obj records; a heap must call mut(oid) before changing one."""
+
     def __init__(self):
         self.objs: Dict[int, Obj] = {}
+        self.owned = set()
 
     def copy(self):
         h = Heap()
-        h.objs = {k: o.clone_shell() for k, o in self.objs.items()}
+        h.objs = dict(self.objs)
+        self.owned = set()          # both sides now share every record
         return h
+
+    def add(self, o: Obj):
+        self.objs[o.oid] = o
+        self.owned.add(o.oid)
+
+    def mut(self, oid) -> Obj:
+        o = self.objs[oid]
+        if oid not in self.owned:
+            o = o.clone_shell()
+            self.objs[oid] = o
+            self.owned.add(oid)
+        return o
 
     def join_from(self, other: "Heap"):
         """self := self JOIN other (field-wise union; a field missing on one side stays may-unknown)."""
         for oid, o2 in other.objs.items():
             o1 = self.objs.get(oid)
             if o1 is None:
-                self.objs[oid] = o2.clone_shell()
+                self.objs[oid] = o2
+                self.owned.discard(oid)
+                other.owned.discard(oid)
                 continue
+            if o1 is o2:
+                continue
+            o1 = self.mut(oid)
             for f in set(o1.fields) | set(o2.fields):
                 v1, v2 = o1.fields.get(f), o2.fields.get(f)
                 if v1 is None or v2 is None:
